@@ -550,9 +550,17 @@ impl Type {
             }
             Type::Struct(info) => {
                 let mut vars = vec![];
+                // A type argument does not have to occur in any field
+                if let StructKind::Instance(type_args) = &info.kind {
+                    for t in type_args {
+                        vars.extend(t.type_variables(including_type_parameters));
+                    }
+                }
                 for (_, (_, t)) in &info.fields {
                     vars.extend(t.type_variables(including_type_parameters));
                 }
+                vars.sort();
+                vars.dedup();
                 vars
             }
             Type::List(element_type) => element_type.type_variables(including_type_parameters),
